@@ -125,18 +125,29 @@ def run(pid: str, tier: str, seed: int, selftest=False, replay=None) -> int:
         ctx.register_accelerator("snax_xdma", lambda: SNAXXDMAAccelerator())   # as snaxc does for a cluster with an xDMA
     rep.extra["xdma_extension_kernels"] = xk
     cases = []
+    # exhaustive small scope (spec/SeqGen.tla): every sequence / nesting (for, if/else; depth <= 2) of <= 3 (thorough: 4) copies, compute ops,
+    # readers and barriers
+    from gen_seq import render_ops, tlc_sequences
+    rg, seqs = tlc_sequences(pid, 8, 3 if tier == "quick" else 4, 2, True)
+    rep.add_tlc(rg)
+    rep.extra["small_scope_programs"] = len(seqs)
+    jobs = []
+    for q, toks in enumerate(seqs):
+        text, body, un, up = render_ops(toks, False)
+        jobs.append(("small:" + " ".join(toks), text, [[900001], [900002], [900003], [0, 1, 2] if un else [1], [0, 1] if up else [0]], [2 + q % 3], False))
     for k in range(n):
         rng = random.Random(seed * 15485863 + k)
         text, body = Gen(rng).program()
-        name = f"gen:{seed}:{k}"
+        used = lambda a: any((a + t) in body for t in (" ", ",", ")", "\n"))
+        argdom = [[900001], [900002], [900003], [900004], [900005], [900006], [0, 1, 2] if used("%n") else [1], [0, 1] if used("%p") else [0], [0, 1] if used("%q") else [0]]
+        jobs.append((f"gen:{seed}:{k}", text, argdom, rng.sample([2, 3, 4, 5], 2), k % 3 == 0))
+    for name, text, argdom, corecounts, pinning in jobs:
         try:
             src = repo.parse(text)
             src.verify()
         except Exception as e:
             raise MachineryError(f"generator produced invalid input {name}: {e}\n{text}")
-        used = lambda a: any((a + t) in body for t in (" ", ",", ")", "\n"))
-        argdom = [[900001], [900002], [900003], [900004], [900005], [900006], [0, 1, 2] if used("%n") else [1], [0, 1] if used("%p") else [0], [0, 1] if used("%q") else [0]]
-        for ncores in rng.sample([2, 3, 4, 5], 2):
+        for ncores in corecounts:
             m = src.clone()
             try:
                 repo.run_pipeline(m, f"dispatch-regions{{nb_cores={ncores}}}")
@@ -149,7 +160,7 @@ def run(pid: str, tier: str, seed: int, selftest=False, replay=None) -> int:
             cases.append({"name": f"{name}|N={ncores}", "A": ia, "B": ib, "argdom": argdom, "opqdom": [[0]], "coredom": list(range(ncores)),
                           "extra": {"ncores": ncores, "xk": xk}, "text": text, "after": str(funcs_of(m)["f"])})
             # pinning the core id to a constant (xDSL's function-constant-pinning driven by the emitted pin_to_constants attribute)
-            if k % 3 == 0 and "snax_cluster_core_idx" in str(m):
+            if pinning and "snax_cluster_core_idx" in str(m):
                 pm = m.clone()
                 try:
                     repo.run_pipeline(pm, "function-constant-pinning")
@@ -197,6 +208,6 @@ def run(pid: str, tier: str, seed: int, selftest=False, replay=None) -> int:
             if bad:
                 oi, verdict, na, nb = sorted(bad)[0]
                 o = oracle_at(c, oi)
-                rep.violation(c["name"], f"clause {verdict} fails on core {o['core']} for inputs {o['args'][6:]} ({na} original events, {nb} on this core; "
+                rep.violation(c["name"], f"clause {verdict} fails on core {o['core']} for inputs {[x for x in o['args'] if x < 900000]} ({na} original events, {nb} on this core; "
                               f"{len(bad)}/{len(vs)} oracles)", {"source": c["text"], "after": c["after"], "oracle": o, "clause": verdict})
     return rep.finish(known)
